@@ -322,8 +322,25 @@ def run_check(pid, fn, argv=None):
             print('ANALYSIS-ERROR cannot read replay file: %s' % e)
             return 2
     ctx = Ctx(repo, tier, seed)
+    # a check that does not terminate is analysis-broken, not a pass
+    try:
+        import signal
+        limit = int(os.environ.get('VERIF_TIMEOUT', '0') or 0) or (
+            3000 if tier == 'thorough' else 1200)
+
+        def _alarm(signum, frame):
+            raise AnalysisError('analysis did not finish within %d s'
+                                % limit)
+        signal.signal(signal.SIGALRM, _alarm)
+        signal.alarm(limit)
+    except (ImportError, ValueError, AttributeError):
+        pass
     try:
         rep = fn(ctx)
+        try:
+            signal.alarm(0)
+        except Exception:
+            pass
         return rep.finish()
     except AnalysisError as e:
         print('ANALYSIS-ERROR property=%s: %s' % (pid, e))
